@@ -99,6 +99,14 @@ def run(report, tier, seed):
         report.not_decided.append(
             'the constraints the reader builds from RANGES and BOUNDS')
     report.replayer = make_replayer()
+    from engine.checks import py_common
+    py_common.demote_unconfirmed_shape_checks(
+        report, lambda ob: ob.kind == 'refuses-non-lp' or
+        'syntactic' in (ob.by or []),
+        'a statement or a written term is not of the form the contract '
+        'reads (first statement `if not self._islp(): raise TypeError`, '
+        'labels base[:7 - len(str(i))] + "_" + str(i), letters of the row / '
+        'bound types, reader slices)')
     # a writer outside the supported subset is an undecided obligation of
     # its own (exit 2), not a vacuous run
     report.floor = 60 if not any(o['kind'] == 'engine' for o in obs) else 1
